@@ -11,6 +11,42 @@ BASELINE = ("cd /repo && /venv/bin/python -m pytest -ra -q -p no:cacheprovider -
 
 # pid -> (category, text, design_ref, level_note, technique)
 CLAIMED = {
+ "C03": ("model_checking",
+         "TLC explores spec/Logix.tla (tags as typed arrays of octet-valued elements; every tag/attribute service as the set of "
+         "outcomes the statements allow) over every catalogue request to depth 2-3 on several type-pair configurations and "
+         "checks TypeOK, FrameOK, ReadsMemory, RefusedNoChange, Readable; every (reachable memory, request) pair and random "
+         "histories are executed on the real simulator with requests encoded by the spec; TLC (LogixTrace) accepts each reply "
+         "and resulting tag contents only if they are an allowed outcome.",
+         "5/C03", "CM-level execution (Connection_Manager.request on CIP octets); bounded value domains; PERMISSIVE points listed in LogixOps.tla",
+         "TLA+ spec (LogixOps/Logix) + TLC exhaustive; per-transition replay of TLC-emitted cases and random histories validated by TLC trace spec"),
+ "C04": ("model_checking",
+         "spec/MC_Frag.tla: a client walks Read Tag Fragmented / tiles Write Tag Fragmented against LogixOps; TLC explores every tag "
+         "length, start, count, reply budget 1..2*size+3, fragment-size choice and tile order per element type and checks "
+         "NeverFails, FragmentSize, Reassembly, Tiled, Progress (liveness under weak fairness); every emitted transfer is walked on "
+         "the real simulator and validated per fragment and as a whole by TLC.",
+         "5/C04", "fixed-size element types only (as the property states); CM-level execution; budget = Logix.MAX_BYTES",
+         "TLA+ transfer model + TLC exhaustive incl. liveness; every emitted transfer replayed on the real simulator, validated by TLC (LogixTrace xfer verdict)"),
+ "C05": ("model_checking",
+         "Same spec and machinery as C03 over the whole request catalogue: out-of-bounds indices/counts/offsets, zero counts, every "
+         "request type against every tag type, values beyond the tag type's range, unknown tags; the spec fixes 0xFF/0x2105, "
+         "0xFF/0x2107 where the statement does, requires unchanged memory on every refusal and representable stored values after "
+         "every accepted write (memory projection after each step).",
+         "5/C05", "CM-level execution; unknown tag: any failure indication accepted (encapsulation error or CIP status)",
+         "TLA+ spec (LogixOps/Logix) + TLC exhaustive; per-transition replay and histories validated by TLC trace spec"),
+ "C07": ("model_checking",
+         "A bundle is defined in the spec as the left fold of its members (AfterMulti/Chain) and the offset-table law is checked "
+         "by TLC on every emitted bundle; every bundle of 1..2/3 members over a basis of valid and failing requests is run on "
+         "the real simulator and, member by member, on an identically initialised one; TLC locates member replies through the "
+         "reply's own offset table and decides three-way (spec outcome, equal to single reply, equal final memory).",
+         "5/C07", "unknown-tag members: reply not compared with the stand-alone form (which aborts with an encapsulation error)",
+         "TLA+ fold definition + TLC-emitted bundles replayed; bundle vs singles vs spec decided by TLC (LogixTrace)"),
+ "C16": ("model_checking",
+         "spec/DotDict.tla models the tree by its flat view (leaf paths), textual keys with empty tokens ('..', leading dot), "
+         "list elements; TLC explores all histories to depth 2-3 (WellFormed, IterationMatchesLookup, InteriorLookup, ReadOnly, "
+         "DelOnlyLeaves); every (state, operation) and random histories run on real dotdicts in item/attribute/index/get forms, "
+         "and TLC (DotDictTrace) accepts result, returned value and resulting tree; copy/deepcopy independence.",
+         "5/C16", "leaf values are small integers; PERMISSIVE points listed in evidence assumptions; known finding F7 modelled exactly",
+         "TLA+ spec (DotDict) + TLC exhaustive; per-transition replay + histories validated by TLC trace spec"),
  "C19": ("model_checking",
          "TLC checks the sorted sweep (TLA+ state machine) against the post-condition written from the statement for "
          "every multiset of <=3 ranges over addresses on both sides of a bank boundary x reach x limit; every one of "
